@@ -223,7 +223,10 @@ def run_scaled(rng, tier, case):
         # fixing the scale at the reported optimum reproduces the value
         rf = flow.run_portfolio(with_fixed_scale(sp, s_star), do_extract=False)
         if rf.ok and rf.solved:
-            case.check('scaled.free_scale_reproduced_when_fixed', abs(float(rf.res.value) - V) <= tolv * (1 + abs(V)), nonvacuous=flowed, **who, scale=s_star, free=V, fixed=float(rf.res.value))
+            # (two solver runs: the tolerance is relative to the gross cash flows of the solution - a value near zero is a difference of large flows)
+            gross = float(np.abs(np.asarray(rf.op.c, float) * np.asarray(rf.res.x, float)).sum())
+            case.check('scaled.free_scale_reproduced_when_fixed', abs(float(rf.res.value) - V) <= tolv * (1 + abs(V) + gross), nonvacuous=flowed, **who, scale=s_star, free=V, fixed=float(rf.res.value),
+                       gross_cash_flows=gross)
         ok = True; bad = None
         for s in list(rng.uniform(sc['min_scale'], sc['max_scale'], 3)) + [sc['min_scale'], sc['max_scale']]:
             ve, err = plain_value(float(s))
